@@ -64,6 +64,14 @@ def gen(rng):
                          'at': rng.randint(0, max(0, n - 1))}
         if kind in ('s-agen', 's-agen-loop') and m % 2:
             scen['inner_where'] = 'source'
+    if kind.startswith('a-'):
+        # how the consumer drives the async iterator: `async for` in one task, or one __anext__ at a time, each awaited
+        # in a task of its own / through shield / through asyncio.wait (a consumer multiplexing several sources does that)
+        scen['consume'] = rng.choice(['for', 'for', 'task', 'shield', 'wait'])
+    if kind == 's-agen-loop' and rng.random() < 0.4:
+        # the caller-supplied loop has a history: an earlier bridge on it was left early (after 0..2 of its 3 elements,
+        # right away or long after its source had finished); the judged iteration that follows is a perfectly normal one
+        scen['prelude'] = {'read': rng.randint(0, 2), 'wait': rng.choice([0, 0, 20 * TICK]), 'pd': rng.choice([0, TICK / 2, 5 * TICK])}
     return scen
 
 
@@ -183,6 +191,28 @@ class IterHarness:
                             box['ticks'].append(s.now)
                             await aio.sleep(TICK)
 
+                    mode = scen.get('consume', 'for')
+
+                    async def items(ait):
+                        if mode == 'for':
+                            async for x in ait:
+                                yield x
+                            return
+                        it = ait.__aiter__()
+                        while True:
+                            try:
+                                if mode == 'task':
+                                    x = await aio.ensure_future(it.__anext__())
+                                elif mode == 'shield':
+                                    x = await aio.shield(it.__anext__())
+                                else:
+                                    t = aio.ensure_future(it.__anext__())
+                                    await aio.wait({t})
+                                    x = t.result()
+                            except StopAsyncIteration:
+                                return
+                            yield x
+
                     async def main_coro():
                         tk = aio.ensure_future(ticker())
                         mk = {'a-gen': lambda e, *a: sgen(e, *a), 'a-iter': lambda e, *a: It(e, *a), 'a-list': lambda e, *a: list(e),
@@ -192,7 +222,7 @@ class IterHarness:
                             ait = A.to_async_iter(src)
                             if late:
                                 await aio.sleep(late)
-                            async for x in ait:
+                            async for x in items(ait):
                                 box['got'].append(x)
                                 emit('got', len(box['got']) - 1)
                                 if inner is not None and len(box['got']) - 1 == inner['at']:
@@ -220,6 +250,21 @@ class IterHarness:
                     if kind == 's-agen-loop':
                         own = aio.new_event_loop()
                     mk = AIt if kind == 's-aiter' else agen
+                    pre_ = scen.get('prelude')
+                    if pre_ is not None and own is not None:
+                        async def presrc():
+                            for i in range(3):
+                                if pre_['pd']:
+                                    await aio.sleep(pre_['pd'])
+                                yield ('pre', i)
+                        it0 = iter(A.to_sync_iter(presrc(), loop=own))
+                        for _ in range(pre_['read']):
+                            next(it0)
+                        if pre_['wait']:
+                            s.sleep(pre_['wait'])
+                        it0.close()
+                        del it0
+                        emit('prelude_done')
                     src = mk()
                     try:
                         it = A.to_sync_iter(src, loop=own) if own is not None else A.to_sync_iter(src)
@@ -335,6 +380,10 @@ class C16(Check):
             st['long_delay_injected'] += 1
         kind = scen['kind']
         st[f'kind_{kind}'] += 1
+        if scen.get('consume', 'for') != 'for':
+            st['consumer_awaits_each_anext_in_its_own_task_or_shield'] += 1
+        if scen.get('prelude') is not None and any(e[0] == 'prelude_done' for e in r.log):
+            st['loop_with_an_abandoned_earlier_bridge'] += 1
         box = r.extra
         elems, fail = scen['elems'], scen['fail']
         exp = elems if fail is None else elems[:fail]
@@ -398,6 +447,7 @@ class C16(Check):
         k = 2 if tier == 'quick' else 30
         return {'nontrivial': 10000 * k, 'long_delay_injected': 1000 * k, 'failing_source': 5000 * k, 'responsiveness_judged': 1000 * k,
                 'nested_second_bridge': 1000 * k, 'long_source_consumer_behind': 500 * k, 'kind_s-agen': 1000 * k, 'kind_a-gen': 1000 * k, 'fail_at_start': 500 * k, 'fail_at_end': 500 * k,
+                'consumer_awaits_each_anext_in_its_own_task_or_shield': 1500 * k, 'loop_with_an_abandoned_earlier_bridge': 200 * k,
                 'fail_at_middle': 500 * k}
 
 
